@@ -261,6 +261,7 @@ def sharded_tie(run, router, quick, proof_ok, samples, distinct):
     st = G.sharded_statements()
     cfgs6 = [c for c in CFGS if c[0] and c[1]]
     n = 0
+    pending = None
     hist = {"messages": 0, "with_shard_error": 0, "error_before_a_write": 0, "panics": 0}
     for ak in ("data.id", "*.id"):
         base = settings_json((True, True, False, None), auto_key=True)
@@ -343,18 +344,20 @@ def sharded_tie(run, router, quick, proof_ok, samples, distinct):
                 run.violation("counterexample", "automatic_sharding_key=%s: message %r with a non-plain-read is routed to role %s (infer: %s)" % (ak, "; ".join(m), o["state"]["role"], o.get("infer")),
                               {"input": case, "monitor": "write-not-primary", "impl": list(impl)})
                 return n
-            if mi in model:
+            if mi in model and pending is None:
                 mo = tuple(model[mi][ci])
                 mo = (mo[0], mo[1], bool(mo[2]))
                 if mo != impl:
-                    run.violation("tie-broken", "automatic_sharding_key=%s: message %r: model (role, shard+1, Err)=%s implementation=%s" % (ak, "; ".join(m), mo, impl),
-                                  {"correspondence": "Route/Model.v infer_sh vs QueryRouter::infer", "input": case, "oracle": [orc[t] for t in m], "model": list(mo), "impl": list(impl)}, found_input=False)
-                    return n
+                    # keep it; the monitor above goes on over the remaining messages looking for a failing input
+                    pending = ("automatic_sharding_key=%s: message %r: model (role, shard+1, Err)=%s implementation=%s" % (ak, "; ".join(m), mo, impl),
+                               {"correspondence": "Route/Model.v infer_sh vs QueryRouter::infer", "input": case, "oracle": [orc[t] for t in m], "model": list(mo), "impl": list(impl)})
         if ak == "data.id":
             ex = next((m for m in msgs if len(m) == 3 and one[m[2]][1] == "write" and orc[m[0]] != orc[m[1]] and orc[m[0]].startswith("(ShSome") and orc[m[1]].startswith("(ShSome")), None)
             if ex:
                 samples.append({"kind": "sharded-message", "sql": "; ".join(ex), "per_statement_shard_outcome": [orc[t] for t in ex]})
     run.cov["sharded"] = hist
+    if pending is not None and not run.violations:
+        run.violation("tie-broken", pending[0] + " [every message with a non-plain-read is still routed to the primary]", pending[1], found_input=False)
     return n
 
 
@@ -521,6 +524,7 @@ def check_wire(run, router, quick, proof_ok, samples, distinct, recorded):
     hist = {"sessions": 0, "plugin_pools": 0, "empty_messages": 0, "empty_under_explicit_role_on_plugin_pool": 0, "transactions": 0, "commands": 0, "set_valued": 0, "no_candidate_errors": 0, "known_F17": 0, "by_shape": {}, "executed_on": {"primary": 0, "replica": 0},
             "any_role_used": {"primary": 0, "replica": 0}, "transactions_after_explicit_role": 0}
     f17_w = None
+    pending = None       # first disagreement with the model on which the monitor has nothing to say
     for si, (m, scn, res) in enumerate(zip(metas, scns, results)):
         rp = {"kind_of_input": "wire", "input": {"shape": m["shape"], "cfg": m["cfg"], "default_shard": m["default_shard"], "role_of": m["role_of"],
                                                   "items": [list(it[:3]) + [it[4]] if it[0] == "txn" else list(it[:2]) for it in m["items"]], "scenario": scn}}
@@ -610,7 +614,7 @@ def check_wire(run, router, quick, proof_ok, samples, distinct, recorded):
                     run.violation("counterexample", "%s: %s" % (desc, bad), dict(rp, monitor=bad, backend=be, transaction=tag))
                     return n
             # ---- model: allowed servers for this checkout
-            if mv is not None:
+            if mv is not None and pending is None:
                 al = mv[ii]
                 if al is None:
                     run.violation("tie-broken", "%s: the model takes it for a custom command" % desc, rp, found_input=False)
@@ -636,8 +640,11 @@ def check_wire(run, router, quick, proof_ok, samples, distinct, recorded):
                                       dict(rp, backend=be, model_allowed=allowed))
                         return n
                 elif be is None or be not in allowed:
-                    run.violation("tie-broken" if not bad else "counterexample", "%s: ran on %s; Route.Model allows %s" % (desc, be, allowed), dict(rp, backend=be, transaction=tag, model_allowed=allowed, error_reply=errored), found_input=bool(bad))
-                    return n
+                    # (a failing predicate of the monitor was reported above) the monitor goes on over the rest of this and the
+                    # remaining sessions; only if it finds nothing is this reported, as a broken tie
+                    pending = ("%s: ran on %s; Route.Model allows %s" % (desc, be, allowed), dict(rp, backend=be, transaction=tag, model_allowed=allowed, error_reply=errored))
+    if pending is not None and not run.violations:
+        run.violation("tie-broken", pending[0] + " [the monitor finds no transaction that breaks the property in %d sessions]" % hist["sessions"], pending[1], found_input=False)
     if hist["known_F17"]:
         recorded(F17, "wire: Parse(write) Bind Execute Parse(read) Bind Execute Sync ran the write on a replica [%d batches this run]" % hist["known_F17"], f17_w)
     run.cov["wire"] = hist
@@ -861,7 +868,9 @@ def check(run):
 
     def compare(seq, c, outs, mrow, what, si):
         """model row vs implementation outs for one configuration"""
-        nonlocal evals, panics
+        nonlocal evals, panics, pending
+        if pending is not None:
+            mrow = None          # a disagreement is on record: from here on only the monitor searches for a failing input
         for j, o in enumerate(outs):
             if "panic" in o:
                 panics += 1
@@ -873,16 +882,46 @@ def check(run):
                 g = impl_obs(o)
                 if m != g:
                     ws = wire_steps(seq, texts)
-                    run.violation("tie-broken", "%s: model and implementation disagree at step %d (%s) under parser=%s splitting=%s primary_reads=%s default_role=%s plugins=%s: model (role,parser,primary_reads)=%s impl=%s"
-                                  % (what, j, ws[j].get("sql", ws[j]["op"])[:120], c[0], c[1], c[2], c[3], c[4], m, g),
-                                  {"correspondence": "Route/Model.v session_trace vs QueryRouter (harness bin router)", "input": {"settings": settings_json(c), "steps": ws},
-                                   "step": j, "model": list(m), "impl": list(g), "ast": [asts[s["_k"][1]] if s["_k"][0] == "msg" else None for s in seq]},
-                                  found_input=False)
+                    pending = ("%s: model and implementation disagree at step %d (%s) under parser=%s splitting=%s primary_reads=%s default_role=%s plugins=%s: model (role,parser,primary_reads)=%s impl=%s"
+                               % (what, j, ws[j].get("sql", ws[j]["op"])[:120], c[0], c[1], c[2], c[3], c[4], m, g),
+                               {"correspondence": "Route/Model.v session_trace vs QueryRouter (harness bin router)", "input": {"settings": settings_json(c), "steps": ws[:j + 1]},
+                                "step": j, "model": list(m), "impl": list(g), "ast": [asts[s["_k"][1]] if s["_k"][0] == "msg" else None for s in seq[:j + 1]]})
                     return False
         return True
 
+    def watch(seq, c, outs):
+        """the property's own predicates on the implementation's outputs of one session (no model); True = a failing input was reported"""
+        for (j, kind, text) in monitor(c, seq, outs, labels, asts):
+            if kind == "panic":
+                continue
+            ws = wire_steps(seq, texts)
+            if kind == "write-not-primary" and F23_RE.search(ws[j].get("sql", "")):
+                f23.append({"settings": settings_json(c), "steps": ws, "step": j, "role": outs[j]["state"]["role"]})
+                continue
+            # shrink: drop every step the failure does not need (the monitor re-run on the implementation decides)
+            seq, outs, j = list(seq), list(outs), j
+            i = 0
+            while i < len(seq) and len(seq) > 1:
+                cand = seq[:i] + seq[i + 1:]
+                (r2,) = RL.run_router(router, [{"settings": settings_json(c), "steps": wire_steps(cand, texts)}])
+                f2 = [x for x in monitor(c, cand, r2["out"], labels, asts) if x[1] == kind]
+                if f2:
+                    seq, outs, j = cand, r2["out"], f2[0][0]
+                else:
+                    i += 1
+            ws = wire_steps(seq, texts)
+            rp = {"input": {"settings": settings_json(c), "steps": ws, "labels": [labels[s["_k"][1]] if s["_k"][0] == "msg" else None for s in seq]},
+                  "monitor": kind, "step": j, "impl": [list(impl_obs(o)) for o in outs]}
+            if pending is not None:
+                rp["model_disagreement"] = pending[0]
+            run.violation("counterexample", "%s at step %d: %r under parser=%s splitting=%s primary_reads=%s default_role=%s plugins=%s"
+                          % (text, j, ws[j].get("sql", ws[j]["op"])[:200], c[0], c[1], c[2], c[3], c[4]), rp)
+            return True
+        return False
+
     known = {e.get("id"): e for e in vlib.known_findings("C05")}
     stop = False
+    pending = None       # first model/implementation disagreement: reported as tie-broken only if the monitor finds no failing input
     f23 = []
 
     def recorded(fid, text, replay_input):
@@ -909,22 +948,9 @@ def check(run):
             for j, s in enumerate(seq):
                 if s["_k"][0] == "msg":
                     distinct.add((ci, s.get("proto"), s["_k"][1], impl_obs(outs[j - 1]) if j else None))
-            if not compare(seq, c, outs, mv[0][ci] if mv is not None else None, "session %d" % si, si):
+            compare(seq, c, outs, mv[0][ci] if mv is not None else None, "session %d" % si, si)
+            if watch(seq, c, outs):
                 stop = True
-                continue
-            for (j, kind, text) in monitor(c, seq, outs, labels, asts):
-                if kind == "panic":
-                    continue
-                ws = wire_steps(seq, texts)
-                if kind == "write-not-primary" and F23_RE.search(ws[j].get("sql", "")):
-                    f23.append({"settings": settings_json(c), "steps": ws, "step": j, "role": outs[j]["state"]["role"]})
-                    continue
-                run.violation("counterexample", "%s at step %d: %r under parser=%s splitting=%s primary_reads=%s default_role=%s plugins=%s"
-                              % (text, j, ws[j].get("sql", ws[j]["op"])[:200], c[0], c[1], c[2], c[3], c[4]),
-                              {"input": {"settings": settings_json(c), "steps": ws, "labels": [labels[s["_k"][1]] if s["_k"][0] == "msg" else None for s in seq]},
-                               "monitor": kind, "step": j, "impl": [list(impl_obs(o)) for o in outs]})
-                stop = True
-                break
         if si in (0, 5, len(msgs) + 3) and mv is not None:
             samples.append({"kind": "session", "steps": [w.get("sql", w["op"])[:100] for w in wire_steps(seq, texts)], "config": "parser on, splitting on, primary_reads off, default_role any",
                             "model (role,parser,primary_reads) per step": [list(dec_obs(d)) for d in unpack(mv[0][0], len(seq))],
@@ -936,7 +962,8 @@ def check(run):
             outs = res[pos]["out"]; pos += 1
             if stop:
                 continue
-            if not compare(sessions[si], c, outs, mv[0][CFGS.index(c)] if mv is not None else None, "session %d (automatic_sharding_key on)" % si, si):
+            compare(sessions[si], c, outs, mv[0][CFGS.index(c)] if mv is not None else None, "session %d (automatic_sharding_key on)" % si, si)
+            if watch(sessions[si], c, outs):
                 stop = True
     # F17 batches: model == impl, and the property's predicate fails exactly as recorded
     f17_hits = 0
@@ -948,7 +975,6 @@ def check(run):
             if stop:
                 continue
             if not compare(seq, c, outs, mv[ci] if mv is not None else None, "F17 batch %d" % fi, fi):
-                stop = True
                 continue
             if c[0] and c[1] and not any("panic" in o for o in outs):
                 # the batch executes a non-plain-read statement (first Bind) but the checkout role is
@@ -982,6 +1008,11 @@ def check(run):
     evals += n_sharded
     if not run.violations:
         evals += check_wire(run, router, quick, proof_ok, samples, distinct, recorded)
+    if pending is not None and not run.violations:
+        # the implementation left the model, but every property predicate still holds on every library session, on the
+        # sharded messages and on every wire transaction of this run
+        run.violation("tie-broken", pending[0] + " [the property's own predicates (explicit role honoured, writes to the primary, reads not pinned) hold on all %d library sessions and on the wire]" % len(sessions),
+                      pending[1], found_input=False)
     run.cov["evaluations"] = evals
     run.cov["distinct_nontrivial"] = len(distinct)
     run.cov["rule"] = ("statements: %d boundary forms (incl. every former witness) + %d non-query statements + grammar-generated queries (depth <= %d: joins, derived tables, scalar/EXISTS/IN sub-queries, CTEs read-only and "
